@@ -176,7 +176,7 @@ theorem nrStep (p : GProg) : ∀ f, NrStep p f := by
         simp only [linkVal] at h
         split at h
         · split at h
-          · rename_i σ1 xs' hx; cases h
+          · rename_i σ1 xs' hx; cases guardDup_ok h
             obtain ⟨e1, e2⟩ := iVs _ _ _ _ _ _ hn hx
             exact ⟨e1, by simp only [lnk]; exact e2⟩
           · cases h
@@ -193,7 +193,7 @@ theorem nrStep (p : GProg) : ∀ f, NrStep p f := by
         simp only [linkVal] at h
         split at h
         · split at h
-          · rename_i σ1 xs' hx; cases h
+          · rename_i σ1 xs' hx; cases guardDup_ok h
             obtain ⟨e1, e2⟩ := iVs _ _ _ _ _ _ hn hx
             exact ⟨e1, by simp only [lnk]; exact e2⟩
           · cases h
@@ -271,20 +271,32 @@ theorem nrHalts (p : GProg) : ∀ n, NrHalts p n := by
       | cons x xs => simp only [CV.mszList] at h; omega
   | succ n ih =>
     obtain ⟨iV, iVs⟩ := ih
-    have viaVals : ∀ m xs t σ, CV.mszList xs ≤ n → nrAtList p m xs = true → ∀ (wrap : List CV → CV) (hw : ∀ l, lnkList l = true → lnk (wrap l) = true),
+    have viaVals : ∀ m xs t σ, CV.mszList xs ≤ n → nrAtList p m xs = true → ∀ (fin : St → List CV → Res (St × CV))
+        (hw : ∀ σ1 l, lnkList l = true → fin σ1 l = .err ∨ ∃ v, fin σ1 l = .ok (σ1, v) ∧ lnk v = true),
         ∃ f, (match linkVals f p m xs t σ with
-              | .ok (σ1, xs') => Res.ok (σ1, wrap xs')
+              | .ok (σ1, xs') => fin σ1 xs'
               | .err => .err
               | .fuel => .fuel) = .err ∨
           ∃ v', (match linkVals f p m xs t σ with
-              | .ok (σ1, xs') => Res.ok (σ1, wrap xs')
+              | .ok (σ1, xs') => fin σ1 xs'
               | .err => .err
               | .fuel => .fuel) = .ok (σ, v') ∧ lnk v' = true := by
-      intro m xs t σ hsz hn wrap hw
+      intro m xs t σ hsz hn fin hw
       obtain ⟨f, hf⟩ := iVs m xs t σ hsz hn
       rcases hf with h | ⟨xs', h, hl⟩
       · exact ⟨f, Or.inl (by rw [h])⟩
-      · exact ⟨f, Or.inr ⟨wrap xs', by rw [h], hw _ hl⟩⟩
+      · rcases hw σ xs' hl with hg | ⟨v, hg, hv⟩
+        · exact ⟨f, Or.inl (by rw [h]; exact hg)⟩
+        · exact ⟨f, Or.inr ⟨v, by rw [h]; exact hg, hv⟩⟩
+    have finSet : ∀ σ1 l, lnkList l = true → guardDup p σ1 l (.set l) = .err ∨
+        ∃ v, guardDup p σ1 l (.set l) = .ok (σ1, v) ∧ lnk v = true := by
+      intro σ1 l hl
+      rcases guardDup_cases p σ1 l (.set l) with hg | hg
+      · exact Or.inl hg
+      · exact Or.inr ⟨.set l, hg, by simp only [lnk]; exact hl⟩
+    have finList : ∀ σ1 l, lnkList l = true → (Res.ok (σ1, CV.list l) : Res (St × CV)) = .err ∨
+        ∃ v, (Res.ok (σ1, CV.list l) : Res (St × CV)) = .ok (σ1, v) ∧ lnk v = true :=
+      fun σ1 l hl => Or.inr ⟨.list l, rfl, by simp only [lnk]; exact hl⟩
     refine ⟨?_, ?_⟩
     · intro m v t σ hsz hn
       cases v with
@@ -326,10 +338,10 @@ theorem nrHalts (p : GProg) : ∀ n, NrHalts p n := by
         simp only [CV.msz] at hsz
         cases hk : rootKind p (rootIn p σ t) with
         | set e =>
-          obtain ⟨f, hf⟩ := viaVals m xs e σ (by omega) hn CV.set (fun l hl => by simp only [lnk]; exact hl)
+          obtain ⟨f, hf⟩ := viaVals m xs e σ (by omega) hn (fun σ1 l => guardDup p σ1 l (.set l)) finSet
           exact ⟨f + 1, by simp only [linkVal, hk]; exact hf⟩
         | list e =>
-          obtain ⟨f, hf⟩ := viaVals m xs e σ (by omega) hn CV.list (fun l hl => by simp only [lnk]; exact hl)
+          obtain ⟨f, hf⟩ := viaVals m xs e σ (by omega) hn (fun σ1 l => .ok (σ1, .list l)) finList
           exact ⟨f + 1, by simp only [linkVal, hk]; exact hf⟩
         | _ => exact ⟨1, Or.inl (by simp only [linkVal, hk])⟩
       | set xs =>
@@ -337,7 +349,7 @@ theorem nrHalts (p : GProg) : ∀ n, NrHalts p n := by
         simp only [CV.msz] at hsz
         cases hk : rootKind p (rootIn p σ t) with
         | set e =>
-          obtain ⟨f, hf⟩ := viaVals m xs e σ (by omega) hn CV.set (fun l hl => by simp only [lnk]; exact hl)
+          obtain ⟨f, hf⟩ := viaVals m xs e σ (by omega) hn (fun σ1 l => guardDup p σ1 l (.set l)) finSet
           exact ⟨f + 1, by simp only [linkVal, hk]; exact hf⟩
         | _ => exact ⟨1, Or.inl (by simp only [linkVal, hk])⟩
       | uref name =>
